@@ -176,7 +176,7 @@ def shards(tier, seed):
     out = []
     for fmt in ("molden", "molekel"):
         for i in range(7):
-            out.append((f"{fmt}{i}", "shard_vendor", {"fmt": fmt, "max_examples": 400 if big else 90}))
+            out.append((f"{fmt}{i}", "shard_vendor", {"fmt": fmt, "max_examples": 1000 if big else 90}))
     return out
 
 
